@@ -484,6 +484,45 @@ impl World {
         Some(self.fin(json!({"ev": "write", "p": p, "side": side, "data": data, "res": res, "n": n})))
     }
 
+    fn with_stream_mut<R>(&mut self, p: i64, side: &str, f: impl FnOnce(&mut TcpStream) -> R) -> Option<R> {
+        if side == "c" {
+            set_current(self.h1);
+            let idx = self.clients.iter().position(|c| match c {
+                Client::Held(s) => s.local_addr().map(|a| mport(a.port())).ok() == Some(p),
+                _ => false,
+            })?;
+            match &mut self.clients[idx] {
+                Client::Held(s) => Some(f(s)),
+                _ => None,
+            }
+        } else {
+            set_current(self.h2);
+            match self.servers.get_mut(&p) {
+                Some(Some(s)) => Some(f(s)),
+                _ => None,
+            }
+        }
+    }
+
+    /// `AsyncWrite::poll_write_vectored` with `data` cut into `k` slices (polled once, by hand).
+    fn writev(&mut self, p: i64, side: &str, data: &[u8], k: usize) -> Option<Value> {
+        use tokio::io::AsyncWrite;
+        let k = k.clamp(1, data.len().max(1));
+        let per = data.len().div_ceil(k);
+        let slices: Vec<&[u8]> = data.chunks(per.max(1)).collect();
+        let ios: Vec<io::IoSlice<'_>> = slices.iter().map(|s| io::IoSlice::new(s)).collect();
+        let r = self.with_stream_mut(p, side, |s| Pin::new(s).poll_write_vectored(&mut cx(), &ios))?;
+        let (res, n) = match r {
+            Poll::Ready(Ok(n)) => ("ok", n),
+            Poll::Ready(Err(e)) => (err_name(&e), 0),
+            Poll::Pending => ("wouldblock", 0),
+        };
+        *self.written.entry((p, side.to_string())).or_insert(0) += n;
+        let first: &[u8] = slices.first().copied().unwrap_or(&[]);
+        Some(self.fin(json!({"ev": "write", "p": p, "side": side, "data": data, "first": first, "vec": slices.len(),
+            "res": res, "n": n})))
+    }
+
     fn read(&mut self, p: i64, side: &str, n: usize) -> Option<Value> {
         let mut buf = vec![0u8; n];
         let r = self.with_stream(p, side, |s| s.try_read(&mut buf))?;
@@ -1030,7 +1069,14 @@ fn random_run(cfg: &Cfg, rc: &RCfg, rng: &mut StdRng, events: &mut Vec<Value>) {
                 if done < rc.maxbytes {
                     let n = rng.random_range(1..=rc.wmax).min(rc.maxbytes - done);
                     let data = w.next_bytes(p, &side, n);
-                    if let Some(e) = w.write(p, &side, &data) {
+                    // one write in three is vectored (2-3 slices)
+                    let e = if n >= 2 && rng.random_range(0..3) == 0 {
+                        let k = rng.random_range(2..=3);
+                        w.writev(p, &side, &data, k)
+                    } else {
+                        w.write(p, &side, &data)
+                    };
+                    if let Some(e) = e {
                         events.push(e);
                     }
                 }
@@ -1584,6 +1630,106 @@ fn lomss_run(cfg: &Cfg, rc: &RCfg, rng: &mut StdRng, events: &mut Vec<Value>) {
     w.teardown();
 }
 
+/// Directed choreography 10: `backlog` handshakes die at the listener (connect cancelled while the
+/// SYN is in flight, the SYN-ACK is answered with RST), the wire goes quiet, then one more connect.
+fn deadhs_run(cfg: &Cfg, rc: &RCfg, rng: &mut StdRng, events: &mut Vec<Value>) {
+    let mut w = World::new(cfg);
+    let mut eps: Vec<(i64, String)> = Vec::new();
+    events.push(w.listen());
+    let dead = cfg.backlog + rng.random_range(0..2);
+    for _ in 0..dead {
+        events.push(w.connect());
+        let c = w.clients.len();
+        events.push(w.egress());
+        poll_into(&mut w, events, &mut eps);
+        // by the seed the connect is cancelled before or after its SYN reaches the listener
+        let early = rng.random_range(0..3) == 0;
+        if early {
+            if let Some(e) = w.cancel(c) {
+                events.push(e);
+            }
+        }
+        while !w.wire.is_empty() {
+            events.push(w.deliver(1).unwrap());
+            poll_into(&mut w, events, &mut eps);
+        }
+        if !early {
+            if let Some(e) = w.cancel(c) {
+                events.push(e);
+            }
+        }
+        for _ in 0..3 {
+            events.push(w.egress());
+            poll_into(&mut w, events, &mut eps);
+            while !w.wire.is_empty() {
+                events.push(w.deliver(1).unwrap());
+                poll_into(&mut w, events, &mut eps);
+            }
+        }
+    }
+    // quiet long enough for anything left at the listener to run out of retransmits
+    for _ in 0..(rc.idle_rounds + 1) {
+        events.push(w.egress());
+        poll_into(&mut w, events, &mut eps);
+        while !w.wire.is_empty() {
+            events.push(w.deliver(1).unwrap());
+            poll_into(&mut w, events, &mut eps);
+        }
+    }
+    let _ = establish(&mut w, events, &mut eps);
+    settle(&mut w, events, &mut eps, rc);
+    w.teardown();
+}
+
+/// Directed choreography 11: a stream is shut down or dropped while bytes it wrote are on the
+/// wire / not yet acknowledged; the peer reads to the end and closes too.
+fn closeinflight_run(cfg: &Cfg, rc: &RCfg, rng: &mut StdRng, events: &mut Vec<Value>) {
+    let mut w = World::new(cfg);
+    let mut eps: Vec<(i64, String)> = Vec::new();
+    events.push(w.listen());
+    if let Some(p) = establish(&mut w, events, &mut eps) {
+        let (a, b) = if rng.random_range(0..2) == 0 { ("c", "s") } else { ("s", "c") };
+        let n = rng.random_range(1..=rc.wmax.max(1));
+        let data = w.next_bytes(p, a, n);
+        if let Some(e) = w.write(p, a, &data) {
+            events.push(e);
+        }
+        events.push(w.egress());
+        // by the seed the segment is still in flight, or delivered but its ACK has not left yet
+        if rng.random_range(0..2) == 0 {
+            while !w.wire.is_empty() {
+                events.push(w.deliver(1).unwrap());
+            }
+        }
+        let dropped = rng.random_range(0..2) == 0;
+        if dropped {
+            if let Some(e) = w.close(p, a) {
+                events.push(e);
+                eps.retain(|x| !(x.0 == p && x.1 == a));
+            }
+        } else if let Some(e) = w.shutdown(p, a) {
+            events.push(e);
+        }
+        for _ in 0..(rc.idle_rounds + 2) {
+            events.push(w.egress());
+            while !w.wire.is_empty() {
+                events.push(w.deliver(1).unwrap());
+            }
+            if let Some(e) = w.read(p, b, rc.rmax.max(1)) {
+                events.push(e);
+            }
+        }
+        for side in [b, a] {
+            if let Some(e) = w.close(p, side) {
+                events.push(e);
+                eps.retain(|x| !(x.0 == p && x.1 == side));
+            }
+        }
+    }
+    settle(&mut w, events, &mut eps, rc);
+    w.teardown();
+}
+
 fn random(args: &[String]) {
     let cfg = Cfg::from_args(args);
     let seed = arg_u64(args, "seed", 1);
@@ -1613,7 +1759,10 @@ fn random(args: &[String]) {
         if wild == 2 {
             cfg.wild = rng.random_range(0..2) == 0;
         }
-        let res = catch(|| match mode.as_str() {
+        // `mode=a+b+c`: the runs cycle through the listed choreographies
+        let modes: Vec<&str> = mode.split('+').collect();
+        let this_mode = modes[(r as usize) % modes.len()];
+        let res = catch(|| match this_mode {
             "simclose" => simclose_run(&cfg, &rc, &mut rng, &mut evs),
             "lsndrop" => lsndrop_run(&cfg, &rc, &mut rng, &mut evs),
             "hsackloss" => hsackloss_run(&cfg, &rc, &mut rng, &mut evs),
@@ -1623,6 +1772,8 @@ fn random(args: &[String]) {
             "backlog" => backlog_run(&cfg, &rc, &mut rng, &mut evs),
             "acceptwake" => acceptwake_run(&cfg, &rc, &mut rng, &mut evs),
             "lomss" => lomss_run(&cfg, &rc, &mut rng, &mut evs),
+            "deadhs" => deadhs_run(&cfg, &rc, &mut rng, &mut evs),
+            "closeinflight" => closeinflight_run(&cfg, &rc, &mut rng, &mut evs),
             _ => random_run(&cfg, &rc, &mut rng, &mut evs),
         });
         events.extend(evs);
